@@ -334,9 +334,13 @@ def distinctKeys : List String → Bool
   | [] => true
   | k :: rest => !rest.contains k && distinctKeys rest
 
+def isScalarSel (name : String) (fld : Nat) : Sel → Bool
+  | .scalar k f => k == name && f == fld
+  | _ => false
+
 /-- a name used as an alias (`is_selected`) is the key of a scalar selection of that field -/
 def aliasOk (q : Query) (onAlias : Bool) (name : String) (fld : Nat) : Bool :=
-  !onAlias || q.sels.any fun sel => match sel with | .scalar k f => k == name && f == fld | _ => false
+  !onAlias || q.sels.any (isScalarSel name fld)
 
 def filterOk (s : Schema) (q : Query) (f : Filter) : Bool :=
   f.jpath.isNone && !f.onRef && fieldOk s q.ent f.fld && aliasOk q f.onAlias f.name f.fld &&
